@@ -35,7 +35,7 @@ class YinYang(base.Rule):
         s = [(1, 1), (1, 2), (2, 1), (1, 3), (3, 1), (2, 2), (2, 3), (3, 2), (3, 3)]
         if tier == "quick":
             return s + [(3, 4), (4, 3)]
-        return s + [(1, 4), (4, 1), (2, 4), (4, 2), (3, 4), (4, 3), (2, 5), (5, 2), (4, 4)]
+        return s + [(1, 4), (4, 1), (2, 4), (4, 2), (3, 4), (4, 3), (4, 4)]
 
     def instances(self, shape, cap):
         h, w = shape
